@@ -39,7 +39,7 @@ def alphabet(notation, thin=True):
     return (STD_ALPHA if notation == 'standard' else POL_ALPHA) + (DIGITS_THIN if thin else '0123456789')
 
 
-def make_parser(notation, store=None, auto=True, frozen=False):
+def make_parser(notation, store=None, auto=True, frozen=False, strict=False):
     from pytableaux.lang import Parser, Predicates
     if frozen:
         preds = Predicates.EMPTY
@@ -47,6 +47,8 @@ def make_parser(notation, store=None, auto=True, frozen=False):
         preds = None
     else:
         preds = Predicates([tuple(p) for p in store])
+    if strict and notation == 'standard':
+        return Parser(notation, preds, auto_preds=auto, drop_parens=False)
     return Parser(notation, preds, auto_preds=auto)
 
 
@@ -98,7 +100,7 @@ def token_multiset(text):
     return sorted(toks), opens, closes
 
 
-def accounts_for_input(notation, text, s):
+def accounts_for_input(notation, text, s, strict=False):
     "Necessary condition for 'the returned sentence is what the string says': every symbol of the input is used, none invented."
     if notation == 'polish':
         want = token_multiset(A.pol(s))
@@ -108,8 +110,8 @@ def accounts_for_input(notation, text, s):
     want, wo, wc = token_multiset(A.std(s, top=False))
     if got != want:
         return False, f'input symbols {got} vs sentence symbols {want}'
-    if o != c or o not in (wo, wo - 1):
-        return False, f'{o} "(" and {c} ")" in the input, the sentence has {wo} binary operators'
+    if o != c or o not in ((wo,) if strict else (wo, wo - 1)):
+        return False, f'{o} "(" and {c} ")" in the input, the sentence has {wo} binary operators' + (' (drop_parens=False)' if strict else '')
     return True, ''
 
 
@@ -117,7 +119,7 @@ def store_of(parser):
     return sorted(A.pred_from_lib(p) for p in parser.predicates)
 
 
-def check_string(notation, text, store=None, auto=True, frozen=False, history=()):
+def check_string(notation, text, store=None, auto=True, frozen=False, history=(), strict=False):
     """Returns (violations, info)."""
     out = []
     info = dict(accepted=False, errpos=None)
@@ -126,9 +128,9 @@ def check_string(notation, text, store=None, auto=True, frozen=False, history=()
     def bad(kind, msg):
         fp = f'C13|{kind}'
         if not any(f == fp for f, _ in out):
-            out.append((fp, f'{notation} parser, input {show(text)}, store {store}, auto_preds={auto}, history {list(history)}: {msg}'))
+            out.append((fp, f'{notation} parser, input {show(text)}, store {store}, auto_preds={auto}, history {list(history)}{' drop_parens=False' if strict else ''}: {msg}'))
     try:
-        p = make_parser(notation, store, auto, frozen)
+        p = make_parser(notation, store, auto, frozen, strict)
     except Exception as e:
         bad(f'harness-store|{type(e).__name__}', repr(e))
         return out, info
@@ -150,7 +152,7 @@ def check_string(notation, text, store=None, auto=True, frozen=False, history=()
             why = 'free variable' if A.free_variables(s) else 'vacuous / re-bound quantifier or arity mismatch'
             bad(f'ill-formed-result|{notation}', f'returned {A.std(s)}: {why}')
         if len(text) <= 400:
-            okacc, why = accounts_for_input(notation, text, s)
+            okacc, why = accounts_for_input(notation, text, s, strict)
             if not okacc:
                 bad(f'accepts-ill-formed-string|{notation}', f'accepted as {A.std(s)} although {why}')
         if frozen and store_of(p):
@@ -166,7 +168,7 @@ def check_string(notation, text, store=None, auto=True, frozen=False, history=()
     # history independence: a fresh parser with a copy of the store held *before* this parse
     if history:
         try:
-            q = make_parser(notation, before if not frozen else None, auto, frozen and not before)
+            q = make_parser(notation, before if not frozen else None, auto, frozen and not before, strict)
             o2 = outcome(q, text)
             if o2[0] != o[0] or (o[0] == 'ok' and o2[1] != o[1]) or (o[0] == 'error' and o2[1] != o[1]):
                 bad(f'history-dependent|{notation}', f'after the history: {o[:2]}, fresh parser with the same store: {o2[:2]}')
@@ -346,14 +348,15 @@ def run_random(shard, acc):
             history.append(h)
         if frozen:
             history = []
-        res, info = check_string(notation, text, store, auto, frozen, history)
+        strict = notation == 'standard' and data.draw(st.integers(0, 3)) == 0
+        res, info = check_string(notation, text, store, auto, frozen, history, strict)
         # strings of <= 4 characters are already counted by the exhaustive part
         nontriv = (info['accepted'] or (info['errpos'] or 0) >= 2) and len(text) > 4
-        acc.case((notation, text, store, auto, frozen, history), nontrivial=nontriv,
-                 classes=('accepted' if info['accepted'] else 'rejected', f'mode={mode}', f'store={storekind}', 'with-history' if history else 'no-history'),
+        acc.case((notation, text, store, auto, frozen, history, strict), nontrivial=nontriv,
+                 classes=(*(('drop_parens=False',) if strict else ()), 'accepted' if info['accepted'] else 'rejected', f'mode={mode}', f'store={storekind}', 'with-history' if history else 'no-history'),
                  sample=f'{notation}: {show(text)} store={store} auto={auto} history={len(history)} -> {"accepted" if info["accepted"] else "rejected"}')
         for fp, d in res:
-            acc.finding(fp, dict(kind='check', notation=notation, text=text, store=store, auto=auto, frozen=frozen, history=history), d)
+            acc.finding(fp, dict(kind='check', notation=notation, text=text, store=store, auto=auto, frozen=frozen, history=history, strict=strict), d)
     body()
 
 
@@ -427,7 +430,7 @@ def replay(case):
     if case['kind'] == 'string':
         return check_string(case['notation'], case['text'])[0]
     return check_string(case['notation'], case['text'], case.get('store'), case.get('auto', True), case.get('frozen', False),
-                        case.get('history', ()))[0]
+                        case.get('history', ()), case.get('strict', False))[0]
 
 
 def shrink_candidates(case):
